@@ -1,4 +1,7 @@
 use core::any::TypeId;
+#[cfg(unimock_verif)]
+use crate::verif::sync::AtomicUsize;
+#[cfg(not(unimock_verif))]
 use core::sync::atomic::AtomicUsize;
 
 use crate::alloc::{vec, BTreeMap, Vec};
